@@ -858,6 +858,7 @@ type c16B struct {
 	whole map[string][]string    // kind -> whole-file targets created
 	comps map[string][][2]string // kind -> (doc, name) components created
 	over  bool                   // tape exhausted at least once
+	inner   []string             // whole-file schema targets that have a referable inner element
 	overN   int                  // arity of the first decision asked after the end of the tape
 	top     bool                 // the slot being filled is a root component
 	noReuse int                  // >0 inside allOf: no reference to possibly unfinished ancestors (unguarded recursion is C10's finding #6)
@@ -968,7 +969,10 @@ func (b *c16B) slot(kind, file string, depth int) any {
 	if depth <= 0 {
 		return b.val(kind, file, 0)
 	}
-	style := b.choose(6)
+	style := b.choose(7)
+	if style == 6 && kind != "schemas" {
+		style = 0
+	}
 	if b.r != nil {
 		// random stream: keep the known-finding classes present but rare, so that most layouts are clean
 		leaf := kind == "links" || kind == "examples" || kind == "securitySchemes"
@@ -1040,6 +1044,17 @@ func (b *c16B) slot(kind, file string, depth int) any {
 			return map[string]any{"$ref": "#/components/" + kind + "/" + name}
 		}
 		return map[string]any{"$ref": b.spell(file, docp) + "#/components/" + kind + "/" + name}
+	case 6: // an element INSIDE a whole-file target (file.json#/properties/id); the file is also a whole-file target
+		var target string
+		if l := b.inner; len(l) > 0 && b.choose(2) == 1 {
+			target = l[b.choose(len(l))]
+		} else {
+			target = b.dirOfRoot() + []string{"", "sub/"}[b.choose(2)] + fmt.Sprintf("rec%d.json", b.next())
+			b.files[target] = map[string]any{"type": "object", "properties": map[string]any{"id": b.val("schemas", target, 0)}}
+			b.inner = append(b.inner, target)
+			b.whole["schemas"] = append(b.whole["schemas"], target)
+		}
+		return map[string]any{"$ref": b.spell(file, target) + "#/properties/id"}
 	case 5: // reference back into the root document's components
 		name := fmt.Sprintf("R%d", b.next())
 		b.comps[kind] = append(b.comps[kind], [2]string{b.root, name})
@@ -1541,6 +1556,55 @@ func cmpC16(c hx.Case, impl any, reply map[string]any) hx.Verdict {
 	return v
 }
 
+// shrinkC16: drop one root component, one path, one property-level sub-tree of the root, or one unused file;
+// the heap abstraction is re-derived from the loader for every candidate (candidates that no longer load are dropped).
 func shrinkC16(c hx.Case) []hx.Case {
-	return nil
+	files, _ := c["files"].(map[string]any)
+	root, _ := c["root"].(string)
+	if files == nil {
+		return nil
+	}
+	var out []hx.Case
+	try := func(nf map[string]any) {
+		nc, err := c16MkCase(root, nf)
+		if err != nil {
+			return
+		}
+		if jbool(c, "iso") {
+			nc["iso"] = true
+		}
+		out = append(out, nc)
+	}
+	clone := func() map[string]any { return normalizeJSON(files).(map[string]any) }
+	for fn := range files {
+		if fn == root {
+			continue
+		}
+		nf := clone()
+		delete(nf, fn)
+		try(nf)
+	}
+	rd, _ := files[root].(map[string]any)
+	if rd == nil {
+		return out
+	}
+	if comps, ok := rd["components"].(map[string]any); ok {
+		for k, km := range comps {
+			if m, ok := km.(map[string]any); ok {
+				for n := range m {
+					nf := clone()
+					delete(nf[root].(map[string]any)["components"].(map[string]any)[k].(map[string]any), n)
+					try(nf)
+				}
+			}
+		}
+	}
+	if paths, ok := rd["paths"].(map[string]any); ok {
+		for pn := range paths {
+			nf := clone()
+			delete(nf[root].(map[string]any)["paths"].(map[string]any), pn)
+			try(nf)
+		}
+	}
+	return out
 }
